@@ -27,6 +27,7 @@ MUTATORS = {"push", "insert", "extend", "append", "push_str", "insert_str", "sor
             "execute", "send", "last_mut", "sort_by", "sort_by_key", "extend_from_slice", "clone_into"}
 
 
+STRUCTURAL = {"Unbox::unbox", "UnboxedFormula::rebox"}
 CLOSURE_LOOPS = {"map", "filter", "filter_map", "flat_map", "inspect", "for_each", "any", "all", "find", "position", "take_while", "skip_while"}
 
 
@@ -790,6 +791,18 @@ class Eval:
             bs = self.facts.bodies[target]
             if len(bs) == 1:
                 return self.function(bs[0], args, depth + 1)
+        # structural conversions applied to a literal constructor are evaluated (Formula <-> UnboxedFormula)
+        if name in STRUCTURAL and len(args) == 1 and isinstance(args[0], tuple) and args[0][:1] == ("ctor",) and target in self.facts.bodies and len(self.facts.bodies[target]) == 1 \
+                and self._helper_depth < 6:
+            self._helper_depth += 1
+            try:
+                saved_ret, saved_c, caller_env = self.returns, self.conds, self._cur_env
+                v = self.function(self.facts.bodies[target][0], args, depth + 1)
+                self.returns, self.conds, self._cur_env = saved_ret, saved_c, caller_env
+                if isinstance(v, tuple) and v[:1] == ("ctor",):
+                    return v
+            finally:
+                self._helper_depth -= 1
         if name in ("Vec::len", "slice::len") and len(args) == 1 and isinstance(args[0], tuple) and args[0] and args[0][0] == "list":
             return ("lit", len(args[0][1]))
         if name in ("Vec::is_empty", "slice::is_empty") and len(args) == 1 and isinstance(args[0], tuple) and args[0] and args[0][0] == "list":
